@@ -2,7 +2,8 @@ import BoxoModel.C24.Model
 /-! Line-protocol driver for C24 (see /verif/docs/HOWTO.md).
 ops:  ns <name>            (index name = namespace prefix, e.g. "/" or "/pins/index")
       add <k> <v> | del <k> <v> | delkey <k> | delall | search <k> | hasv <k> <v> | hasany <k> |
-      foreach <k> | dump          (k, v: hex, "-" = empty string) -/
+      foreach <k> | dump | radd <k> <v> | rdel <k> <v> | rdump | sync   (r*: reference index "/ref";
+      sync = SyncIndex(reference, this index))          (k, v: hex, "-" = empty string) -/
 open C24 BaseN
 
 def hexVal (c : Char) : Option Nat :=
@@ -40,6 +41,15 @@ def showOut : Out → String
 structure St where
   ns : Key := ['/']
   s : Store := []
+  /-- a second, reference index (name "/ref", its own datastore) for SyncIndex -/
+  sR : Store := []
+
+def nsR : Key := "/ref".toList
+
+def doOpR (st : St) (op : Option Op) : St × String :=
+  match op with
+  | none => (st, "bad-op")
+  | some op => let r := step nsR st.sR op; ({ st with sR := r.1 }, showOut r.2)
 
 def doOp (st : St) (op : Option Op) : St × String :=
   match op with
@@ -59,6 +69,12 @@ def stepLine (st : St) (line : String) : St × String :=
   | ["hasv", k, v] => doOp st (do pure (.hasValue (← unhex k) (← unhex v)))
   | ["hasany", k] => doOp st (do pure (.hasAny (← unhex k)))
   | ["foreach", k] => doOp st (do pure (.forEach (← unhex k)))
+  | ["radd", k, v] => doOpR st (do pure (.add (← unhex k) (← unhex v)))
+  | ["rdel", k, v] => doOpR st (do pure (.delete (← unhex k) (← unhex v)))
+  | ["rdump"] => (st, "dump " ++ ";".intercalate (sortStrings (st.sR.map String.ofList)))
+  | ["sync"] =>
+    let r := syncIndex st.ns st.s (decodeEntries (queryPrefix nsR st.sR []))
+    ({ st with s := r.1 }, match r.2 with | .changed b => s!"changed {b}" | .error => "error")
   | ["dump"] => (st, "dump " ++ ";".intercalate (sortStrings (st.s.map String.ofList)))
   | _ => (st, "bad-op")
 
